@@ -31,14 +31,11 @@ abbrev Dict := List (Bytes × Val)
 inductive IErr where
   | oddOperands      -- PSTypeError, swallowed by do_keyword: nothing is pushed
   | keyNotName       -- outside the model (literal_name(str(x)) of a non-name key)
-  | indexError       -- `filter[0]` on an empty array
-  | typeError        -- `filter[0]` on a number / bool
   | eof              -- PSEOF while scanning
   deriving Repr, DecidableEq
 
 def IErr.toString : IErr → String
-  | .oddOperands => "dropped" | .keyNotName => "unmodelled" | .indexError => "IndexError"
-  | .typeError => "TypeError" | .eof => "EOF"
+  | .oddOperands => "dropped" | .keyNotName => "unmodelled" | .eof => "EOF"
 
 /-- Python dict assignment: overwrite in place, or append. -/
 def dictSet (d : Dict) (k : Bytes) (v : Val) : Dict :=
@@ -79,16 +76,13 @@ def kImageMask : Bytes := [73, 109, 97, 103, 101, 77, 97, 115, 107]
 def nA85 : Bytes := [65, 56, 53]
 def nASCII85Decode : Bytes := [65, 83, 67, 73, 73, 56, 53, 68, 101, 99, 111, 100, 101]
 
-/-- The end marker `do_keyword` scans for: `~>` when the first filter of `/F` is ASCII85. -/
+/-- The end marker `do_keyword` scans for: `~>` when `/F` is a name, or a non-empty array whose first
+    element is a name, of the ASCII85 filter; anything else names no filter (`EI`). -/
 def eosOf (d : Dict) : Except IErr Bytes :=
   match lookup d kF with
-  | none => .ok [69, 73]
   | some (.name f) => .ok (if f = nA85 ∨ f = nASCII85Decode then [126, 62] else [69, 73])
-  | some (.arr []) => .error .indexError
   | some (.arr (.name f :: _)) => .ok (if f = nA85 ∨ f = nASCII85Decode then [126, 62] else [69, 73])
-  | some (.arr (_ :: _)) => .ok [69, 73]
-  | some .str => .ok [69, 73]
-  | some _ => .error .typeError
+  | _ => .ok [69, 73]
 
 def componentsOf (cs : Bytes) : Option Nat := (inlineComponents.find? (fun p => p.1 == cs)).map (·.2)
 
